@@ -60,6 +60,8 @@ func main() {
 		os.Exit(cmdRun(os.Args[2:]))
 	case "replay":
 		os.Exit(cmdReplay(os.Args[2:]))
+	case "tv":
+		os.Exit(cmdTV(os.Args[2:]))
 	default:
 		fmt.Fprintln(os.Stderr, "unknown command")
 		os.Exit(2)
@@ -470,7 +472,9 @@ func (e *Engine) replayEngine(rf *ReplayFile, m *Model) (bool, string) {
 	return false, fmt.Sprintf("no violation on concrete re-execution (outcomes %v %v)", sum.Outcomes, sum.Unsupported)
 }
 
-func replayNative(repoDir, path string, rf *ReplayFile) (bool, string) {
+// nativeTest runs one test of the native twin (harness files + /verif/native compiled into the
+// real package by go test -overlay) and returns its combined output.
+func nativeTest(repoDir, testName string, extraEnv []string) (string, error) {
 	hdir := filepath.Join(verifDir, "harness")
 	ndir := filepath.Join(verifDir, "native")
 	ov := map[string]string{}
@@ -486,9 +490,9 @@ func replayNative(repoDir, path string, rf *ReplayFile) (bool, string) {
 			ov[filepath.Join(repoDir, "zz_verifn_"+en.Name())] = filepath.Join(ndir, en.Name())
 		}
 	}
-	tmp, err := os.MkdirTemp("", "gosym-replay")
+	tmp, err := os.MkdirTemp("", "gosym-native")
 	if err != nil {
-		return false, err.Error()
+		return "", err
 	}
 	defer os.RemoveAll(tmp)
 	// table of harness entry points (name -> func) for the native test
@@ -517,11 +521,15 @@ func replayNative(repoDir, path string, rf *ReplayFile) (bool, string) {
 	ov[filepath.Join(repoDir, "zz_verifn_table.go")] = tabf
 	ovf := filepath.Join(tmp, "overlay.json")
 	writeJSON(ovf, map[string]interface{}{"Replace": ov})
-	cmd := exec.Command("go", "test", "-vet=off", "-count=1", "-tags", "verif verifnative", "-overlay", ovf, "-run", "^TestVerifReplay$", "-timeout", "120s", ".")
+	cmd := exec.Command("go", "test", "-vet=off", "-count=1", "-tags", "verif verifnative", "-overlay", ovf, "-run", "^"+testName+"$", "-timeout", "120s", ".")
 	cmd.Dir = repoDir
-	cmd.Env = append(os.Environ(), "GOFLAGS=-mod=mod", "GOPROXY=off", "GOSUMDB=off", "GOTOOLCHAIN=local", "VERIF_REPLAY="+path, "GOCACHE="+env("GOCACHE", filepath.Join(os.TempDir(), "gosym-gocache")))
+	cmd.Env = append(append(os.Environ(), "GOFLAGS=-mod=mod", "GOPROXY=off", "GOSUMDB=off", "GOTOOLCHAIN=local", "GOCACHE="+env("GOCACHE", filepath.Join(os.TempDir(), "gosym-gocache"))), extraEnv...)
 	out, err := cmd.CombinedOutput()
-	s := string(out)
+	return string(out), err
+}
+
+func replayNative(repoDir, path string, rf *ReplayFile) (bool, string) {
+	s, err := nativeTest(repoDir, "TestVerifReplay", []string{"VERIF_REPLAY=" + path})
 	want := "VERIF-REPLAY-FAIL assertion " + rf.AssertID
 	if rf.Kind == "implicit" {
 		want = "panic:"
@@ -543,6 +551,69 @@ func replayNative(repoDir, path string, rf *ReplayFile) (bool, string) {
 		return false, "native test passed: " + lastLines(s, 3)
 	}
 	return false, "native test did not run: " + lastLines(s, 8)
+}
+
+// cmdTV: translator validation. Every Verif_TV_* harness is run concretely by the engine and
+// natively; the sequences of observed values must be identical.
+func cmdTV(args []string) int {
+	e, err := setup("quick")
+	if err != nil {
+		fmt.Println("BROKEN:", err)
+		return 2
+	}
+	var hs []string
+	for name := range e.pkg.Members {
+		if strings.HasPrefix(name, "Verif_TV_") {
+			hs = append(hs, name)
+		}
+	}
+	sort.Strings(hs)
+	total, bad := 0, 0
+	for _, h := range hs {
+		e.keepAllObs = true
+		sum := e.explore(h, ExploreCfg{Workers: 1, Timeout: 10 * time.Second, Solvers: []SolverKind{Z3}, SinglePath: true})
+		if len(sum.Unsupported) > 0 || sum.Outcomes["ok"] != 1 {
+			fmt.Printf("TV %s: engine run did not complete: %v %v\n", h, sum.Outcomes, sum.Unsupported)
+			bad++
+			continue
+		}
+		tmp, _ := os.CreateTemp("", "tvout")
+		tmp.Close()
+		out, err := nativeTest(e.repoDir, "TestVerifTV", []string{"VERIF_TV=" + h, "VERIF_TV_OUT=" + tmp.Name()})
+		if err != nil {
+			fmt.Printf("TV %s: native run failed: %s\n", h, lastLines(out, 6))
+			bad++
+			continue
+		}
+		nb, _ := os.ReadFile(tmp.Name())
+		os.Remove(tmp.Name())
+		nat := strings.Split(strings.TrimRight(string(nb), "\n"), "\n")
+		eng := sum.Observations
+		n := len(eng)
+		if len(nat) != n {
+			fmt.Printf("TV %s: %d engine observations vs %d native\n", h, len(eng), len(nat))
+			bad++
+			if len(nat) < n {
+				n = len(nat)
+			}
+		}
+		for i := 0; i < n; i++ {
+			if eng[i] != nat[i] {
+				fmt.Printf("TV %s: observation %d differs: engine %q native %q\n", h, i, eng[i], nat[i])
+				bad++
+				break
+			}
+		}
+		total += n
+		fmt.Printf("TV %s: %d observations compared\n", h, n)
+	}
+	writeJSON(filepath.Join(verifDir, "bin", "tv_result.json"), map[string]interface{}{"observations_compared": total, "mismatches": bad, "harnesses": hs})
+	if bad > 0 {
+		fmt.Println("TRANSLATOR VALIDATION FAILED")
+		return 2
+	}
+	fmt.Printf("translator validation ok: %d observations of %d harnesses identical in engine and native build\n", total, len(hs))
+	return 0
 }
 
 func lastLines(s string, n int) string {
@@ -672,6 +743,7 @@ func writeEvidence(e *Engine, prop, tier string, sums []*Summary, nViol int, inc
 			"solver_time_s": float64(q.TimeNs) / 1e9,
 			"load_and_ssa_build_s": e.loadTime.Seconds(),
 			"inconclusive":  inconclusive,
+			"traces_validated_against_impl": tvCount(),
 		},
 		"assumptions": keys(assumptions),
 	}
@@ -685,4 +757,22 @@ func keys(m map[string]bool) []string {
 	}
 	sort.Strings(out)
 	return out
+}
+
+// tvCount: number of observations found identical between engine and native build by the last
+// `vcheck selftest` (translator validation on the repository's own test vectors).
+func tvCount() int {
+	b, err := os.ReadFile(filepath.Join(verifDir, "bin", "tv_result.json"))
+	if err != nil {
+		return 0
+	}
+	var r struct {
+		N   int `json:"observations_compared"`
+		Bad int `json:"mismatches"`
+	}
+	json.Unmarshal(b, &r)
+	if r.Bad > 0 {
+		return 0
+	}
+	return r.N
 }
